@@ -2,6 +2,9 @@ pub mod c08;
 pub mod c09;
 pub mod c13;
 pub mod c14;
+pub mod c15;
+pub mod c16;
+pub mod c18;
 
 use crate::runner::Prop;
 
@@ -11,6 +14,9 @@ pub fn sweep_prop(id: &str) -> Option<Box<dyn Prop>> {
         "C09" => Box::new(c09::C09::new()),
         "C13" => Box::new(c13::C13::new()),
         "C14" => Box::new(c14::C14::new()),
+        "C15" => Box::new(c15::C15::new()),
+        "C16" => Box::new(c16::C16::new()),
+        "C18" => Box::new(c18::C18::new()),
         _ => return None,
     })
 }
